@@ -26,6 +26,11 @@ def pRenderCase : P RenderCase := do
   let ps ← pPartials
   let tag ← tok
   let pay ← tok
+  -- optional trailing `#x<hex of the liquid source>` (for humans; ignored here)
+  let rest ← get
+  match rest with
+  | [c] => if c.startsWith "#" then set ([] : List String) else pure ()
+  | _ => pure ()
   pure { kind := kind, tmpl := t, data := d, partials := ps, obsTag := tag, obsPayload := pay }
 
 def showRes (r : Res Str) : String :=
